@@ -135,6 +135,13 @@ func runC10(t *testing.T, c c10cfg) (out c10out) {
 			cache = &HCache{Data: []byte(doc(all, 2))}
 		case "stale":
 			cache = &HCache{Data: []byte(doc(all, 1))}
+		case "complete-empty-values":
+			// what a store writes for secrets whose value is empty (the service accepts those): valid entries
+			var parts []string
+			for _, n := range all {
+				parts = append(parts, fmt.Sprintf(`"%s":{"secret":{"Value":"","Version":2},"lastAccess":"5"}`, n))
+			}
+			cache = &HCache{Data: []byte("{" + strings.Join(parts, ",") + "}")}
 		case "malformed":
 			cache = &HCache{Data: []byte(`{"a":{"secret":{"Value":"eA==","Version":1}`)}
 		case "invalid-entry":
@@ -246,6 +253,10 @@ func c10Check(c c10cfg, o c10out) (kind, msg string) {
 		for _, n := range all {
 			cached[n] = 1
 		}
+	case "complete-empty-values":
+		for _, n := range all {
+			cached[n] = 2
+		}
 	}
 	var deadline time.Duration
 	switch c.ctx {
@@ -308,6 +319,9 @@ func c10Check(c c10cfg, o c10out) (kind, msg string) {
 			want := Value(n, 2)
 			if v, ok := cached[n]; ok {
 				want = Value(n, v)
+				if c.cache == "complete-empty-values" {
+					want = ""
+				}
 			}
 			if o.values[n] != want {
 				return "value", fmt.Sprintf("Secret(%q) = %q, want %q", n, o.values[n], want)
@@ -370,7 +384,7 @@ func checkC10(t *testing.T, env *report.Env, rep *report.Report) {
 		"service scripts per secret: success after k failures for k in {0,1,2,3,12,13,14}, or failure forever; failures are plain errors or look like timeouts that are not the caller's; the service either honours the caller's context or keeps answering from its script after it ended",
 	}
 	sec := rep.Add(&report.Section{Name: "construction-all-configurations", Engine: "enum", Exhaustive: true, Extra: map[string]int64{}, Outcomes: map[string]int64{},
-		Rule: "declared-list shape(8, incl. names repeated across Secrets and struct tags) × cache state(10; those with valid entries also with an expiry age configured) × per-secret failure script(8 each) × context(5) × service error style(4), each one NewStore execution under virtual time against the retry model; non-trivial = configurations in which at least one secret has to be fetched and at least one request fails"})
+		Rule: "declared-list shape(8, incl. names repeated across Secrets and struct tags) × cache state(11, incl. a complete cache of empty-valued secrets; those with valid entries also with an expiry age configured) × per-secret failure script(8 each) × context(5) × service error style(4), each one NewStore execution under virtual time against the retry model; non-trivial = configurations in which at least one secret has to be fetched and at least one request fails"})
 	lists := []struct {
 		name    string
 		names   []string
@@ -378,7 +392,7 @@ func checkC10(t *testing.T, env *report.Env, rep *report.Report) {
 		mixed   string
 	}{{"[a]", []string{"a"}, false, ""}, {"[a,b]", []string{"a", "b"}, false, ""}, {"[a,a]", []string{"a", "a"}, false, ""}, {"[b,a,b]", []string{"b", "a", "b"}, false, ""}, {"struct{a,b}", []string{"a", "b"}, true, ""}, {"struct{a}", []string{"a"}, true, ""},
 		{"[a,b]+struct{a}", []string{"a", "b"}, true, "secrets+tag"}, {"struct{a,b,a}", []string{"a", "b"}, true, "aba"}}
-	caches := []string{"none", "empty", "partial", "complete", "stale", "malformed", "invalid-entry", "type-error", "type-error-number", "readerr"}
+	caches := []string{"none", "empty", "partial", "complete", "complete-empty-values", "stale", "malformed", "invalid-entry", "type-error", "type-error-number", "readerr"}
 	scripts := []int{0, 1, 2, 3, 12, 13, 14, -1}
 	if env.Thorough() {
 		scripts = []int{0, 1, 2, 3, 4, 5, 10, 11, 12, 13, 14, 15, -1}
